@@ -131,6 +131,14 @@ CHECKS = {
         note="trusted: the membership oracle member() in pylib/c16.py (float-vs-int, Callable-vs-enum-type, Iterable-vs-str/struct are left to agreement only); one open known finding (documented tuple[T1, T2] spelling) keyed on its signature",
         technique="runtime agreement monitor across check paths + independent reference oracle over an enumerated type x value space",
         ref="DESIGN.md section 3 C16"),
+    "C17": dict(
+        engine="svh",
+        text="Each module is type-checked twice (diagnostics, type map and approximations must be identical), linted, and evaluated. Corpora: modules well typed by construction from the type-directed generator (in functions and at module level), "
+             "annotated full-dialect modules, and scrambled ill-typed modules for the no-crash part. The checker must report nothing on the well-typed corpus; for every binding to which it commits a definite type (no Any inside, module without approximations) "
+             "every value the running program observed for that binding must be a member (C16 oracle on the rendered type); for exported names isinstance(value, rendered interface type) must hold.",
+        note="trusted: the generator's notion of well-typed (no container mutation after binding, no risky forms); the parser for rendered types in pylib/c17.py; the C16 membership oracle",
+        technique="runtime confrontation of static commitments with observed values + determinism / no-crash monitors over generated modules",
+        ref="DESIGN.md section 3 C17"),
     "C18": dict(
         engine="svh",
         text="Generated programs with marker statements run uninstrumented, under (a sample of, thorough: all) 13 ProfileModes, with a logging statement hook, and under the debug adapter with breakpoints on all / none / a random subset of marker lines "
@@ -139,6 +147,15 @@ CHECKS = {
         note="trusted: the marker discipline (markers contain no nested calls); step-over/out only checked for non-interference; one open known finding (module-level statements stop twice) keyed on its signature",
         technique="runtime trace monitor: transcript equality + stop-log subsequence/exactly-once checker over recorded debugger events",
         ref="DESIGN.md section 3 C18"),
+    "C19": dict(
+        engine="svh",
+        text="The language server runs on an in-memory connection and is driven with raw JSON-RPC: per generated document (nested defs / lambdas / comprehensions with shadowing, non-ASCII and astral text before identifiers on the same line, CRLF and mixed line ends) "
+             "a notification history (open / change / invalid change / close / reopen) and then definition, hover and completion requests at every identifier occurrence and at positions inside astral characters, past end of line and past end of file. "
+             "Every range in every response is validated against the current text in UTF-16 units; the target of go-to-definition must be the identifier's text and a binding occurrence in the scope the running program read the variable from "
+             "(each binding's value names its scope, each use emits what it read); the position of a run-time error must equal independently computed line/character.",
+        note="trusted: Python's UTF-16 arithmetic and the document generator's scope bookkeeping (cross-checked against the run; disagreements are inconclusive); one open known finding (returned columns are chars, not UTF-16) keyed on its signature",
+        technique="runtime protocol monitor (range well-formedness) + differential oracle between static name resolution and the executed program",
+        ref="DESIGN.md section 3 C19"),
     "C20": dict(
         engine="svh",
         text="2..16 threads start on a barrier with seeded jitter and run generated client programs that load shared frozen modules (or, in the first-use variant, build globals and modules under contention), "
